@@ -288,7 +288,7 @@ pub fn replay_scenario(case: &J, rep: &mut Report) {
         }
     }
     let before_inputs = inputs.clone();
-    type Fut<'a> = Pin<Box<dyn Future<Output = reval::Result<Vec<reval::ruleset::Outcome<'a>>>> + Send + 'a>>;
+    type Fut<'a> = Pin<Box<dyn Future<Output = reval::Result<Vec<reval::ruleset::Outcome<'a>>>> + 'a>>;
     let n = inputs.len();
     let mut futs: Vec<Option<Fut>> = (0..n).map(|_| None).collect();
     let mut done: Vec<bool> = vec![false; n];
